@@ -1,3 +1,108 @@
 import Holpy.Common.Sexp
-/- stub: replaced when the C06 model is built -/
-def main : IO Unit := Holpy.lineLoop (fun _ => "bad-op")
+import Holpy.C06.Model
+/-
+Line protocol of the C06 model (one s-expression in, one out):
+  (solve VARS (A ...) C)   -> (ok Z ...) | (error z3exc|crash)      assertion list of solve_core
+  (convert VARS T)         -> (ok Z (Z ...)) | (error E (Z ...))    result and the assms table
+VARS = ((name TY) ...) free variables in `term.get_vars` order (function variables included).
+TY = bool | nat | int | real | (tv a) | fun;  H / Z terms: see `hOf` / `zTo`.
+-/
+open Holpy Holpy.C06
+
+namespace Holpy.C06.Driver
+
+def tyOf : Sexp → Option Ty
+  | .atom "bool" => some .bool | .atom "nat" => some .nat | .atom "int" => some .int
+  | .atom "real" => some .real | .atom "fun" => some (.tv "%fun")
+  | .list [.atom "tv", .atom n] => some (.tv n)
+  | _ => none
+
+partial def hOf : Sexp → Option H
+  | .atom "tt" => some .tt | .atom "ff" => some .ff
+  | .atom "eqfun" => some .eqFun | .atom "unsup" => some .unsup
+  | .list [.atom "var", .atom x, T] => do some (.var x (← tyOf T))
+  | .list [.atom "bv", i] => do some (.bv (← i.toNat?))
+  | .list [.atom "num", T, p, q] => do
+      let p ← p.toInt?; let q ← q.toNat?
+      some (.num (← tyOf T) (mkRat p q))
+  | .list [.atom "not", a] => do some (.not (← hOf a))
+  | .list [.atom "neg", a] => do some (.neg (← hOf a))
+  | .list [.atom "ofnat", a] => do some (.ofNat (← hOf a))
+  | .list [.atom "ofnatvar", .atom x] => some (.ofNatVar x)
+  | .list [.atom "abs", r, a] => do some (.abs (← r.toBool?) (← hOf a))
+  | .list [.atom "sub", n, a, b] => do some (.sub (← n.toBool?) (← hOf a) (← hOf b))
+  | .list [.atom "ite", c, a, b] => do some (.ite (← hOf c) (← hOf a) (← hOf b))
+  | .list [.atom "all", .atom x, T, b] => do some (.all x (← tyOf T) (← hOf b))
+  | .list [.atom "ex", .atom x, T, b] => do some (.ex x (← tyOf T) (← hOf b))
+  | .list [.atom "app", .atom f, d, c, a] => do some (.app f (← tyOf d) (← tyOf c) (← hOf a))
+  | .list [.atom "mem", a, .atom S, d] => do some (.mem (← hOf a) S (← tyOf d))
+  | .list [.atom op, a, b] => do
+      let a ← hOf a; let b ← hOf b
+      match op with
+      | "and" => some (.and a b) | "or" => some (.or a b) | "imp" => some (.imp a b)
+      | "xor" => some (.xor a b) | "eq" => some (.eq a b) | "add" => some (.add a b)
+      | "mul" => some (.mul a b) | "div" => some (.div a b) | "le" => some (.le a b)
+      | "lt" => some (.lt a b) | "ge" => some (.ge a b) | "gt" => some (.gt a b)
+      | "max" => some (.max a b) | "min" => some (.min a b)
+      | _ => none
+  | _ => none
+
+def srtTo : Srt → Sexp
+  | .bool => .atom "Bool" | .int => .atom "Int" | .real => .atom "Real"
+  | .u n => .list [.atom "U", .atom n]
+
+partial def zTo : Z → Sexp
+  | .bconst b => .list [.atom "b", Sexp.ofBool b]
+  | .ilit n => .list [.atom "i", Sexp.ofInt n]
+  | .rlit q => .list [.atom "r", Sexp.ofInt q.num, Sexp.ofNat q.den]
+  | .const x s => .list [.atom "const", .atom x, srtTo s]
+  | .bv i _ => .list [.atom "bv", Sexp.ofNat i]
+  | .not a => .list [.atom "not", zTo a]
+  | .and a b => .list [.atom "and", zTo a, zTo b]
+  | .or a b => .list [.atom "or", zTo a, zTo b]
+  | .imp a b => .list [.atom "imp", zTo a, zTo b]
+  | .eq a b => .list [.atom "eq", zTo a, zTo b]
+  | .ite c a b => .list [.atom "ite", zTo c, zTo a, zTo b]
+  | .add a b => .list [.atom "add", zTo a, zTo b]
+  | .sub a b => .list [.atom "sub", zTo a, zTo b]
+  | .mul a b => .list [.atom "mul", zTo a, zTo b]
+  | .div a b => .list [.atom "div", zTo a, zTo b]
+  | .neg a => .list [.atom "neg", zTo a]
+  | .le a b => .list [.atom "le", zTo a, zTo b]
+  | .lt a b => .list [.atom "lt", zTo a, zTo b]
+  | .ge a b => .list [.atom "ge", zTo a, zTo b]
+  | .gt a b => .list [.atom "gt", zTo a, zTo b]
+  | .toReal a => .list [.atom "to_real", zTo a]
+  | .app f d c a => .list [.atom "app", .atom f, srtTo d, srtTo c, zTo a]
+  | .all _ s b => .list [.atom "forall", srtTo s, zTo b]
+  | .ex _ s b => .list [.atom "exists", srtTo s, zTo b]
+
+def varsOf (s : Sexp) : Option (List (String × Ty)) := do
+  (← s.toList?).mapM fun
+    | .list [.atom x, T] => do some (x, (← tyOf T))
+    | _ => none
+
+def errTo : Err → Sexp
+  | .z3exc => .atom "z3exc" | .crash => .atom "crash"
+
+def handle (line : String) : String :=
+  match Sexp.parse line with
+  | some (.list [.atom "solve", vars, .list as, c]) =>
+    match varsOf vars, as.mapM hOf, hOf c with
+    | some vs, some As, some C =>
+      match solveCore vs As C with
+      | .ok zs => toString (Sexp.list (.atom "ok" :: zs.map zTo))
+      | .error e => toString (Sexp.list [.atom "error", errTo e])
+    | _, _, _ => "bad-op"
+  | some (.list [.atom "convert", vars, t]) =>
+    match varsOf vars, hOf t with
+    | some vs, some t =>
+      match convert t { varNames := vs.map (·.1), assms := [], toReal := [] } with
+      | (.ok r, st) => toString (Sexp.list [.atom "ok", zTo r.toZ, .list (st.assms.map (zTo ·.2))])
+      | (.error e, st) => toString (Sexp.list [.atom "error", errTo e, .list (st.assms.map (zTo ·.2))])
+    | _, _ => "bad-op"
+  | _ => "bad-op"
+
+end Holpy.C06.Driver
+
+def main : IO Unit := Holpy.lineLoop Holpy.C06.Driver.handle
